@@ -217,3 +217,23 @@ CONTRACTS["model:TimedCompartment.update"] = dict(
     frame_props=["C01", "C02", "C05"],
     defined_props=["C02"],
 )
+
+# Residual junction outside a duration group: stated proportions (scaled to 1 when they sum above 1), remainder to the residual link.
+_res_P = "sum(l.parameter.vals[ti] for l in self.outlinks if l.parameter is not None)"
+CONTRACTS["model:ResidualJunctionCompartment.balance#plain"] = dict(
+    schema=schema,
+    params={"ti": "int"},
+    requires=["0 <= ti", "self.duration_group is None", _plain_out, _links_ti_ok,
+              "all(implies(l.parameter is not None, ti < len(l.parameter.vals) and l.parameter.vals[ti] >= 0) for l in self.outlinks)",
+              "sum(1 for l in self.outlinks if l.parameter is None) == 1",            # exactly one residual outflow (Population.build)
+              "all(ti < len(il.vals) and il.vals[ti] >= 0 for il in self.inlinks)",
+              "all(not isinstance(il, TimedLink) for il in self.inlinks)"],
+    modifies=["l.vals[ti] for l in self.outlinks"],
+    ensures=[
+        ("C04.stated_proportion_scaled_to_one", "all(implies(l.parameter is not None, l.vals[ti] * max(1, old(%s)) == old(%s) * old(l.parameter.vals[ti])) for l in self.outlinks)" % (_res_P, _inflow)),
+        ("C04.residual_gets_remainder", "all(implies(l.parameter is None, l.vals[ti] == old(%s) * max(0, 1 - old(%s))) for l in self.outlinks)" % (_inflow, _res_P)),
+        ("C02.flows_nonneg", "all(l.vals[ti] >= 0 for l in self.outlinks)"),
+    ],
+    frame_props=["C01", "C02", "C04"],
+    defined_props=["C02"],
+)
